@@ -108,6 +108,7 @@ func c03Sources() []c03Source {
 		addS(s + "s")
 	}
 	for _, f := range []float64{0.5, -0.5, 1.5, -1.5, 0.999, -0.999, 255.5, 127.9, -128.9, math.MaxFloat32, math.Nextafter(math.MaxFloat32, math.Inf(1)), float64(math.MaxFloat32) * 2,
+		1.23456789, 0.30000000000000004, 16777217, 1e300, 123456789.125, 1e21, 1e-7,
 		math.MaxFloat64, math.SmallestNonzeroFloat64, math.SmallestNonzeroFloat32, math.NaN(), math.Inf(1), math.Inf(-1), math.Copysign(0, -1), 1e10, 9.223372036854775e9, 9.3e9, -9.3e9, 1e-9, 2.5e-10} {
 		addF(f)
 	}
@@ -156,6 +157,10 @@ type c03Expect struct {
 	Either    bool        // not a conversion the statement defines: anything goes (but no panic)
 	Want      interface{} // value to be stored when err == nil (int64 / uint64 / float64 / string / bool / time.Duration)
 	WantIsNaN bool
+	// FloatText: the stored string must be a numeral denoting exactly this float (its spelling is
+	// not fixed by the statement, its value is)
+	FloatText bool
+	F         float64
 }
 
 func truncToInt(v *big.Float) *big.Int {
@@ -205,7 +210,7 @@ func c03Rule(s c03Source, t reflect.Type) c03Expect {
 		case "bool":
 			return c03Expect{Want: strconv.FormatBool(s.B)}
 		}
-		return c03Expect{Either: true} // text form of a float is not fixed by the statement
+		return c03Expect{FloatText: true, F: s.F} // text form of a float is not fixed by the statement, its value is
 	case isInt || isUint:
 		if s.Kind == "bool" {
 			return c03Expect{Either: true}
@@ -370,8 +375,9 @@ func sameStored(got reflect.Value, e c03Expect) (bool, string) {
 func c03Space() *core.Space {
 	srcs := c03Sources()
 	nS, nT := len(srcs), len(c03Targets)
-	// wrappings: 0 plain field, 1 pointer field, 2 via ${ref} plain, 3 via ${ref} pointer
-	radices := []int{nS, nT, 4}
+	// wrappings: 0 plain field, 1 pointer field, 2 via ${ref} plain, 3 via ${ref} pointer,
+	// 4 pointer field pre-filled with a pointer it shares with a sibling field that is set too
+	radices := []int{nS, nT, 5}
 	dec := func(i int) (c03Source, reflect.Type, int) {
 		d := mixedRadix(i, radices...)
 		return srcs[d[0]], c03Targets[d[1]], d[2]
@@ -381,14 +387,39 @@ func c03Space() *core.Space {
 		Size: product(radices...),
 		Text: func(i int) string {
 			s, t, w := dec(i)
-			return fmt.Sprintf("%v -> %v (%s)", s, t, [...]string{"field", "pointer field", "via ${ref}, field", "via ${ref}, pointer field"}[w])
+			return fmt.Sprintf("%v -> %v (%s)", s, t, [...]string{"field", "pointer field", "via ${ref}, field", "via ${ref}, pointer field", "pointer field sharing its pre-filled pointer with a sibling"}[w])
 		},
 		Exec: func(i int) core.Result {
 			s, t, w := dec(i)
 			exp := c03Rule(s, t)
 			var res core.Result
 			pi := core.Guard(func() {
-				c, opts, err := c03Build(s, w >= 2)
+				if w == 4 {
+					// V and W start out pointing at one shared default; the config sets v (the
+					// source) and then w (the number 1): V must hold the source's value afterwards
+					c, _, err := c03Build(s, false)
+					if err != nil {
+						res = core.Fail("unpack", "BUILD", err.Error())
+						return
+					}
+					c.SetInt("w", -1, 1)
+					pt := reflect.PtrTo(t)
+					st := reflect.New(reflect.StructOf([]reflect.StructField{
+						{Name: "V", Type: pt, Tag: `config:"v"`},
+						{Name: "W", Type: pt, Tag: `config:"w"`},
+					}))
+					def := reflect.New(t)
+					st.Elem().Field(0).Set(def)
+					st.Elem().Field(1).Set(def)
+					uerr := c.Unpack(st.Interface())
+					if uerr != nil && exp.MustErr {
+						res = c03Judge(s, t, exp, uerr, st.Elem().Field(0), "Unpack")
+						return
+					}
+					res = c03Judge(s, t, exp, uerr, st.Elem().Field(0), "Unpack")
+					return
+				}
+				c, opts, err := c03Build(s, w >= 2 && w < 4)
 				if err != nil {
 					res = core.Fail("unpack", "BUILD", err.Error())
 					return
@@ -435,6 +466,20 @@ func c03Judge(s c03Source, t reflect.Type, exp c03Expect, err error, got reflect
 	}
 	if err != nil {
 		// the statement is an either/or: refusing a representable value is not a violation
+		return res
+	}
+	if exp.FloatText {
+		for got.Kind() == reflect.Ptr && !got.IsNil() {
+			got = got.Elem()
+		}
+		txt := got.String()
+		f, perr := strconv.ParseFloat(txt, 64)
+		if perr != nil && !(math.IsInf(exp.F, 0) || math.IsNaN(exp.F)) {
+			return core.Fail(entry, "WRONG-VALUE "+cell, fmt.Sprintf("%v into %v: stored the text %q, which is no numeral", s, t, txt))
+		}
+		if perr == nil && !(f == exp.F || (math.IsNaN(f) && math.IsNaN(exp.F))) {
+			return core.Fail(entry, "WRONG-VALUE "+cell, fmt.Sprintf("%v into %v: stored the text %q = %v, exact value %v", s, t, txt, f, strconv.FormatFloat(exp.F, 'g', -1, 64)))
+		}
 		return res
 	}
 	if ok, g := sameStored(got, exp); !ok {
